@@ -8,15 +8,17 @@ Model (Model/Sort.lean): `cmpVal` = core/compare.go, `lessP`/`less` = `orderedRo
 the D2 fix, `lessBuggy` = the code as found, `limitCb`/`offsetCb`/`flatIterate` = limit.go /
 offset.go over the row-callback protocol, `addOrderLimitOffset` = planner.go.
 
-Comparability is an explicit decidable predicate: `Compat ks a b` says that in every ordered
-column the two values are nil or of one dynamic Go type (Go's `uint` excluded: `compare`'s
-`uint` case asserts `uint64` and panics on two `uint`s); `Comparable ks rows` is `Compat` for
-all pairs.  Go's `sort.Sort` is trusted to return a permutation that is non-decreasing for a
+Comparability used to be a real restriction (`Compat ks a b`: in every ordered column the two
+values are nil or of one dynamic Go type other than `uint` — anything else made `compare` panic);
+since /repo 8a9a760 values of different types are ordered by the name of their type, `vcompat` is
+constantly true and `compat_always`/`comparable_always` discharge the hypotheses: the `…_all`
+theorems hold for every dataset.  Go's `sort.Sort` is trusted to return a permutation that is non-decreasing for a
 `Less` that is a strict weak order (`lexLt_strictWeak` + `less_eq_lexLt` give that premise);
 `sort_perm`/`sort_sorted` show the same for the model's own insertion sort, and
 `query_spec` holds for every `sortFn`.
 -/
 import ZenoModel.Lemmas.Sort
+import ZenoModel.Lemmas.SortType
 
 set_option linter.unusedSimpArgs false
 
@@ -26,17 +28,22 @@ counted as proof obligations of `Zeno.C09`) -/
 namespace Zeno.SortSpec
 open Zeno
 
-/-- strict order on the values of one column: nil sorts first, values of one type by their
-    natural order, anything else unordered -/
+/-- strict order on the values of one column: nil sorts first; values of different dynamic types
+    are ordered by the name of their type (what `compare` does since /repo 8a9a760); values of one
+    type by their natural order; `other` values ([]byte …) are unordered among themselves -/
 def vlt : DimVal → DimVal → Bool
   | .nil, .nil => false
   | .nil, _ => true
-  | .bool a, .bool b => !a && b
-  | .int _ a, .int _ b => decide (a < b)
-  | .float _ a, .float _ b => decide (a < b)
-  | .str a, .str b => decide (a < b)
-  | .time a, .time b => decide (a < b)
-  | _, _ => false
+  | _, .nil => false
+  | a, b =>
+    if a.typeName ≠ b.typeName then decide (a.typeName < b.typeName)
+    else match a, b with
+      | .bool a, .bool b => !a && b
+      | .int _ a, .int _ b => decide (a < b)
+      | .float _ a, .float _ b => decide (a < b)
+      | .str a, .str b => decide (a < b)
+      | .time a, .time b => decide (a < b)
+      | _, _ => false
 
 /-- dynamic type of a non-nil value -/
 inductive Ty
@@ -52,12 +59,11 @@ def ty : DimVal → Option Ty
   | .time _ => some .time
   | .other _ => some .other
 
-/-- nil, or same dynamic type other than Go `uint` -/
-def vcompat (a b : DimVal) : Bool :=
-  match ty a, ty b with
-  | none, _ => true
-  | _, none => true
-  | some s, some t => s == t && s != Ty.int .uint
+/-- comparability of two values.  Before /repo 8a9a760 this was "nil, or same dynamic type other
+    than Go `uint`" (anything else made `compare` panic); now every two values are comparable.  The
+    predicate and the `Compat`/`Comparable` hypotheses of the theorems below are kept so that the
+    statements read as before; `compat_always` / `comparable_always` discharge them for ALL rows. -/
+def vcompat (_a _b : DimVal) : Bool := true
 
 /-- strict order induced by one ORDER BY element -/
 def keyLt (o : OrderBy) (a b : FlatRow) : Bool :=
@@ -96,30 +102,126 @@ open Zeno Zeno.SortLemmas Zeno.SortSpec
 
 /-! ## `compare` and `Less` against the specification -/
 
-theorem vcompat_symm (a b : DimVal) : vcompat a b = vcompat b a := by
-  cases a <;> cases b <;> simp [vcompat, ty] <;> grind
+theorem vcompat_symm (a b : DimVal) : vcompat a b = vcompat b a := rfl
 
-/-- `compare` is the three-way form of `vlt` and does not panic on compatible values. -/
-theorem cmpVal_spec {a b : DimVal} (h : vcompat a b = true) :
+/-- the order inside one dynamic type -/
+def inner : DimVal → DimVal → Bool
+  | .bool a, .bool b => !a && b
+  | .int _ a, .int _ b => decide (a < b)
+  | .float _ a, .float _ b => decide (a < b)
+  | .str a, .str b => decide (a < b)
+  | .time a, .time b => decide (a < b)
+  | _, _ => false
+
+theorem vlt_nonnil {a b : DimVal} (ha : a ≠ .nil) (hb : b ≠ .nil) :
+    vlt a b = if a.typeName ≠ b.typeName then decide (a.typeName < b.typeName) else inner a b := by
+  cases a <;> cases b <;> first | exact absurd rfl ha | exact absurd rfl hb | rfl
+
+/-- `vlt` is the lexicographic order of (position of the type name, value inside the type) -/
+theorem vlt_iff (a b : DimVal) : vlt a b = true ↔ ord a < ord b ∨ (ord a = ord b ∧ inner a b = true) := by
+  by_cases ha : a = .nil
+  · subst ha
+    by_cases hb : b = .nil
+    · subst hb; simp [vlt, ord, inner]
+    · have := ord_pos hb
+      cases b <;> simp_all [vlt, ord, inner]
+  · by_cases hb : b = .nil
+    · subst hb; have := ord_pos ha
+      cases a <;> simp_all [vlt, ord, inner]
+    · rw [vlt_nonnil ha hb]
+      by_cases h : ord a = ord b
+      · have : a.typeName = b.typeName := (typeName_eq_iff a b).mpr h
+        simp [this, h]
+      · have hne : a.typeName ≠ b.typeName := fun e => h ((typeName_eq_iff a b).mp e)
+        simp [hne, h, typeName_lt_iff ha hb]
+
+theorem cmpVal_nonnil {a b : DimVal} (ha : a ≠ .nil) (hb : b ≠ .nil) :
+    cmpVal a b = if a.typeName ≠ b.typeName then some (cmp3 a.typeName b.typeName)
+      else some (if inner a b then -1 else if inner b a then 1 else 0) := by
+  cases a <;> cases b <;>
+    first
+    | exact absurd rfl ha
+    | exact absurd rfl hb
+    | (simp only [cmpVal, inner, cmp3]; split <;> simp <;> grind)
+
+/-- `compare` is the three-way form of `vlt`, for EVERY two values (no panic, no comparability
+    condition any more). -/
+theorem cmpVal_spec {a b : DimVal} (_h : vcompat a b = true) :
     cmpVal a b = some (if vlt a b then -1 else if vlt b a then 1 else 0) := by
-  cases a <;> cases b <;> simp_all [cmpVal, vlt, vcompat, ty, cmp3, DimVal.typeName] <;> grind
+  by_cases ha : a = .nil
+  · subst ha; cases b <;> simp [cmpVal, vlt]
+  · by_cases hb : b = .nil
+    · subst hb; cases a <;> simp_all [cmpVal, vlt]
+    · rw [cmpVal_nonnil ha hb, vlt_nonnil ha hb, vlt_nonnil hb ha]
+      by_cases h : a.typeName = b.typeName
+      · simp [h]
+      · have h' : b.typeName ≠ a.typeName := fun e => h e.symm
+        have hab := typeName_lt_iff ha hb
+        have hba := typeName_lt_iff hb ha
+        simp only [ne_eq, h, h', not_false_eq_true, if_true, cmp3]
+        by_cases h1 : a.typeName < b.typeName
+        · have : ¬ b.typeName < a.typeName := by rw [hba]; rw [hab] at h1; omega
+          simp [h1, this]
+        · by_cases h2 : b.typeName < a.typeName
+          · simp [h1, h2]
+          · simp [h1, h2]
 
 theorem vlt_irrefl (a : DimVal) : vlt a a = false := by
   cases a <;> simp [vlt]
 
 theorem vlt_asymm {a b : DimVal} (h : vlt a b = true) : vlt b a = false := by
-  cases a <;> cases b <;> simp_all [vlt] <;> grind
+  rw [Bool.eq_false_iff]; intro h2
+  rw [vlt_iff] at h h2
+  rcases h with h | ⟨he, hi⟩ <;> rcases h2 with h2 | ⟨he2, hi2⟩ <;> try omega
+  cases a <;> cases b <;> simp_all [inner] <;> grind
 
 theorem vlt_trans {a b c : DimVal} (h₁ : vlt a b = true) (h₂ : vlt b c = true) :
     vlt a c = true := by
-  cases a <;> cases b <;> simp_all [vlt] <;> cases c <;> simp_all [vlt] <;> grind
+  rw [vlt_iff] at *
+  rcases h₁ with h | ⟨he, hi⟩ <;> rcases h₂ with h2 | ⟨he2, hi2⟩
+  · left; omega
+  · left; omega
+  · left; omega
+  · right; refine ⟨by omega, ?_⟩
+    cases a <;> cases b <;> simp_all [inner] <;> cases c <;> simp_all [inner] <;> grind
 
-/-- incomparability is transitive on pairwise compatible values -/
-theorem vlt_negTrans {a b c : DimVal} (hab : vcompat a b = true) (hbc : vcompat b c = true)
-    (hac : vcompat a c = true) (h₁ : vlt a b = false) (h₂ : vlt b c = false) :
+theorem inner_negTrans {a b c : DimVal} (hab : ord a = ord b) (hbc : ord b = ord c)
+    (h1 : inner a b = false) (h2 : inner b c = false) : inner a c = false := by
+  have hk := kidx_range
+  cases a <;> cases b <;> cases c <;> simp only [inner, ord] at * <;>
+    first
+    | rfl
+    | grind
+    | (rename_i k _ _ _ ; have := hk k; (try split at hab) <;> (try split at hbc) <;> omega)
+    | skip
+
+/-- incomparability is transitive (for all values: mixed types are ordered by type name) -/
+theorem vlt_negTrans {a b c : DimVal} (_hab : vcompat a b = true) (_hbc : vcompat b c = true)
+    (_hac : vcompat a c = true) (h₁ : vlt a b = false) (h₂ : vlt b c = false) :
     vlt a c = false := by
-  cases a <;> cases b <;> simp_all [vlt, vcompat, ty] <;> cases c <;>
-    simp_all [vlt, vcompat, ty] <;> grind
+  rw [Bool.eq_false_iff] at *
+  intro h
+  have h₁ := mt (vlt_iff a b).mpr h₁
+  have h₂ := mt (vlt_iff b c).mpr h₂
+  rw [vlt_iff] at h
+  have hab : ord b ≤ ord a ∧ (ord a = ord b → inner a b = false) := by
+    constructor
+    · exact Nat.le_of_not_lt (fun hl => h₁ (Or.inl hl))
+    · intro he; cases hi : inner a b with
+      | false => rfl
+      | true => exact absurd (Or.inr ⟨he, hi⟩) h₁
+  have hbc : ord c ≤ ord b ∧ (ord b = ord c → inner b c = false) := by
+    constructor
+    · exact Nat.le_of_not_lt (fun hl => h₂ (Or.inl hl))
+    · intro he; cases hi : inner b c with
+      | false => rfl
+      | true => exact absurd (Or.inr ⟨he, hi⟩) h₂
+  rcases h with h | ⟨he, hi⟩
+  · omega
+  · have e1 : ord a = ord b := by omega
+    have e2 : ord b = ord c := by omega
+    have := inner_negTrans e1 e2 (hab.2 e1) (hbc.2 e2)
+    simp [this] at hi
 
 theorem keyLt_asymm (o : OrderBy) {a b : FlatRow} (h : keyLt o a b = true) :
     keyLt o b a = false := by
@@ -390,6 +492,43 @@ theorem query_unordered (sortFn : List OrderBy → List FlatRow → List FlatRow
     addOrderLimitOffset sortFn ⟨[], n, m⟩ rows = if n = 0 then rows.drop m else slice n m rows := by
   simp [addOrderLimitOffset, limit_offset_slice]
 
+/-! ## For ALL datasets (since /repo 8a9a760 every two values are comparable)
+
+The `Compat` / `Comparable` hypotheses above hold for every list of rows, so the theorems hold
+unconditionally — also for a column that holds values of different dynamic types in different
+rows (ordered by the name of the type) and for Go `uint` values. -/
+
+theorem compat_always (ks : List OrderBy) (a b : FlatRow) : Compat ks a b = true := by
+  simp [Compat, keyCompat, vcompat]
+
+theorem comparable_always (ks : List OrderBy) (rows : List FlatRow) : Comparable ks rows = true := by
+  simp [Comparable, compat_always]
+
+/-- `orderedRows.Less` IS the lexicographic order over the full key list, for all rows. -/
+theorem less_is_lexLt (ks : List OrderBy) (a b : FlatRow) : lessP ks a b = some (lexLt ks a b) :=
+  lessP_eq_lexLt (compat_always ks a b)
+
+/-- `Less` is a strict weak order on ANY set of rows. -/
+theorem less_strictWeak_all (ks : List OrderBy) (rows : List FlatRow) :
+    (∀ a ∈ rows, less ks a a = false) ∧
+    (∀ a ∈ rows, ∀ b ∈ rows, less ks a b = true → less ks b a = false) ∧
+    (∀ a ∈ rows, ∀ b ∈ rows, ∀ c ∈ rows,
+      less ks a b = true → less ks b c = true → less ks a c = true) ∧
+    (∀ a ∈ rows, ∀ b ∈ rows, ∀ c ∈ rows,
+      less ks a b = false → less ks b c = false → less ks a c = false) :=
+  less_strictWeak (comparable_always ks rows)
+
+/-- ORDER BY arranges ANY result non-decreasingly under the full lexicographic key order. -/
+theorem sort_sorted_all (ks : List OrderBy) (rows : List FlatRow) : Sorted ks (isort ks rows) :=
+  sort_sorted (comparable_always ks rows)
+
+/-- The whole of `addOrderLimitOffset` with the model's sort, for all rows, key lists, n, m. -/
+theorem query_spec_all (q : OLO) (rows : List FlatRow) (hk : q.orderBy ≠ []) :
+    ∃ sorted : List FlatRow, sorted.Perm rows ∧ Sorted q.orderBy sorted ∧
+      addOrderLimitOffset isort q rows =
+        if q.limit = 0 then sorted.drop q.offset else slice q.limit q.offset sorted :=
+  query_spec isort q rows hk (sort_perm q.orderBy rows) (sort_sorted_all q.orderBy rows)
+
 /-! ## Record of defect D2: the code as found does not implement the specification -/
 
 def d2Keys : List OrderBy := [⟨"_time", false⟩, ⟨"x", false⟩]
@@ -426,9 +565,9 @@ example : limitOffset 2 1 (isort exKeys exRows) = [exR2, exR5] := by decide
 example : limitOffset 0 3 (isort exKeys exRows) = [exR1, exR3] := by decide
 example : limitOffset 7 4 (isort exKeys exRows) = [exR3] := by decide
 example : limitOffset 3 9 (isort exKeys exRows) = [] := by decide
--- a column holding values of two types is not `Compat`-comparable; since /repo 8a9a760 `Less`
--- orders such values by the name of their type ("int" < "string") instead of panicking
-example : Compat [⟨"d", false⟩] exR1 { ts := 0, key := [("d", .int .int 1)], fields := [] } = false ∧
+-- a column holding values of two types: since /repo 8a9a760 `Less` orders such values by the
+-- name of their type ("int" < "string") instead of panicking
+example : Compat [⟨"d", false⟩] exR1 { ts := 0, key := [("d", .int .int 1)], fields := [] } = true ∧
     lessP [⟨"d", false⟩] exR1 { ts := 0, key := [("d", .int .int 1)], fields := [] } = some false ∧
     lessP [⟨"d", false⟩] { ts := 0, key := [("d", .int .int 1)], fields := [] } exR1 = some true := by
   decide
